@@ -356,7 +356,7 @@ def eproCode : List DInstr :=
 /-- FK_j as the listing reads it -/
 def fkN (j : Nat) : Nat := lane 32 j (unlanes 8 Gen.AsmData.amd64_FK)
 
-theorem imm64_1 : imm64 1 % 2 ^ 16 = 1 := by decide +kernel
+theorem imm64_one_mod16 : imm64 1 % 2 ^ 16 = 1 := by decide +kernel
 theorem imm64_124 : imm64 124 = 124 := by decide +kernel
 theorem addF_fst_124 (a : Nat) : (addF 8 a (imm64 124)).1 = (a + 124) % 2 ^ 64 := by rw [imm64_124]; rfl
 
@@ -434,7 +434,7 @@ theorem eprologue_spec (g v k enc0 dec0 : List Nat) (hG : g.length = 16) (hV : v
     simp only [Nat.reduceMul, List.drop_succ_cons, List.drop_zero, List.take_succ_cons, List.take_zero] at hd0 hd1 hd2 hd3
     have l4 := fun p q r s => lane32_list4 p q r s
     refine ⟨rfl, rfl, ?_, rfl, ?_, ?_, ?_, rfl, rfl, ?_, ?_, ?_, ?_, ?_⟩
-    · simp only [imm64_1]; simp [hK]
+    · simp only [imm64_one_mod16]; simp [hK]
     · simp only [greg, List.getD_cons_succ, List.getD_cons_zero]
     · simp only [greg, List.getD_cons_succ, List.getD_cons_zero]
     · simp only [greg, List.getD_cons_succ, List.getD_cons_zero, addF_fst_124]
